@@ -409,7 +409,7 @@ func nextPow2(n int) int {
 func TestC04_Random(t *testing.T) {
 	rec := evid.New("C04", "c04_random", "rapid-generated reader histories (1..300 ops of Next/Peek/Skip/ReadBinary/Release, boundary sizes) over position-dependent streams of 0..100000 bytes with generated source plans (chunk sizes, zero reads, error position/kind, with/after data) and bytes-backed readers; non-trivial = a successful read served by >=2 source reads, a request > 4096 bytes, or a Release with unread data")
 	defer rec.Flush()
-	runRapid(t, rec, "c04_reader_history", evid.Pick(30000, 40000), genReaderCase, checkReaderCase)
+	runRapid(t, rec, "c04_reader_history", evid.Pick(30000, 200000), genReaderCase, checkReaderCase)
 }
 
 // TestC04_Exhaustive enumerates all programs up to a fixed length over a boundary alphabet, times a
